@@ -20,7 +20,7 @@ fn main() {
     let args: Vec<String> = std::env::args().collect();
     let seed: u64 = args[1].parse().unwrap();
     let n: usize = args[2].parse().unwrap();
-    std::panic::set_hook(Box::new(|_| {}));
+    ezpz_verif_harness::oracle::arm_crash_reporter("C15");
     let mut rng = Rng::new(seed);
     let mut out: Vec<Violation> = Vec::new();
     let (mut systems, mut angle_reqs, mut special, mut lints, mut degen_checked, mut collapsed, mut clean_starts, mut healthy_audits) = (0usize, 0usize, 0usize, 0usize, 0usize, 0usize, 0usize, 0usize);
@@ -65,6 +65,7 @@ fn main() {
             }
         }
         systems += 1;
+        ezpz_verif_harness::oracle::note_current(&sys);
         vh::trace_start();
         let res = solve(&sys.reqs, sys.guesses.clone(), sys.config());
         let ev = vh::trace_take();
